@@ -13,24 +13,50 @@ fn ops_for(p: &Proto, mode: Mode) -> Vec<Op> {
     sess::full_session_ops(p, &[2, 2, 2, 2], mode, &[Side::I, Side::R], &[3, 3])
 }
 
-/// (signature, detail) if the two differently configured peers end up with a working channel
+/// (signature, detail) if the two differently configured peers end up with a working channel.
+/// Runs that contain deliberately failing local calls (the retry variants) are judged on the second clause
+/// only - a transport message accepted - because "completes without an error" does not apply to them.
 pub fn judge(cfg: &Config, ops: &[Op], what: &str) -> Option<(String, String)> {
     let e = Exec::run(cfg, ops);
     if e.build_err.is_some() {
         return None; // a side that cannot even be built has no channel
     }
-    let p = e.proto.clone();
-    let hs_steps = 2 * p.n_msgs();
-    let hs_ok = e.steps.len() >= hs_steps && e.steps[..hs_steps].iter().all(|s| s.real.is_ok());
-    if !hs_ok {
+    let n = e.proto.n_msgs();
+    let hs: Vec<_> = e.steps.iter().filter(|s| matches!(s.op, Op::HsWrite { .. } | Op::HsRead { .. } | Op::SetPsk { .. } | Op::SetPskAlt { .. })).collect();
+    let written = hs.iter().filter(|s| matches!(s.op, Op::HsWrite { .. }) && s.real.is_ok()).count();
+    let read = hs.iter().filter(|s| matches!(s.op, Op::HsRead { .. }) && s.real.is_ok()).count();
+    if written != n || read != n {
         return None;
     }
-    // both finished without any error: the channel must at least be unusable
-    let accepted = e.steps[hs_steps..].iter().any(|s| matches!(s.op, Op::TRead { .. } | Op::SRead { .. }) && s.real.is_ok());
-    Some((
-        if accepted { format!("peers that differ in {what} completed the handshake and exchanged transport messages") } else { format!("peers that differ in {what} both completed the handshake without an error") },
-        format!("{}", cfg.name),
-    ))
+    let clean = hs.iter().all(|s| s.real.is_ok());
+    // both finished: the channel must at least be unusable
+    let accepted = e.steps.iter().any(|s| matches!(s.op, Op::TRead { .. } | Op::SRead { .. }) && s.real.is_ok());
+    if clean {
+        return Some((
+            if accepted { format!("peers that differ in {what} completed the handshake and exchanged transport messages") } else { format!("peers that differ in {what} both completed the handshake without an error") },
+            cfg.name.to_string(),
+        ));
+    }
+    accepted.then(|| (format!("peers that differ in {what} exchanged transport messages after local failing calls and retries"), cfg.name.to_string()))
+}
+
+/// The same session in which every handshake step is first attempted wrongly (a write into a buffer one byte
+/// short, a read into an empty payload buffer - both fail after the message's tokens were processed) and
+/// then repeated correctly.
+fn with_retries(p: &Proto, ops: &[Op]) -> Vec<Op> {
+    use crate::exec::{Cap, Msg};
+    let mut out = vec![];
+    for (k, op) in ops.iter().enumerate() {
+        if k < 2 * p.n_msgs() {
+            match op {
+                Op::HsWrite { side, plen, .. } => out.push(Op::HsWrite { side: *side, plen: *plen, cap: Cap::NeedPlus(-1) }),
+                Op::HsRead { side, .. } => out.push(Op::HsRead { side: *side, msg: Msg::Last(side.peer()), cap: Cap::Exact(0) }),
+                _ => {},
+            }
+        }
+        out.push(op.clone());
+    }
+    out
 }
 
 #[derive(Clone)]
@@ -181,7 +207,7 @@ fn items_for(p: &Proto, deep: bool) -> Vec<Item> {
 pub fn run(tier: Tier) -> i32 {
     let ctx = Ctx::new("C08", tier, "model_checking");
     let quick = ctx.quick();
-    ctx.set_rule("case = (protocol name, one context item made different between the peers: the hashed name string only (one character, appended/removed character, case, psk modifier order), the hash or cipher component, one prologue bit / length (6 prologues incl. empty and longer than a hash block), one bit of one psk, a different valid pre-shared static key on either side, a static key that is not the pre-shared one); pairs of items in thorough. Oracle: never both complete without an error, and no transport message accepted; control: the equal configuration completes. non-trivial = both sides could be built and the run executed");
+    ctx.set_rule("case = (protocol name, one context item made different between the peers: the hashed name string only (one character, appended/removed character, case, psk modifier order), the hash or cipher component, one prologue bit / length (6 prologues incl. empty and longer than a hash block), one bit of one psk, a different valid pre-shared static key on either side, a static key that is not the pre-shared one); a psk replaced through set_psk after building (one side / both sides differently); the same differences in sessions where every handshake step is first attempted wrongly and then repeated; pairs of items in thorough. Oracle: never both complete without an error, and no transport message accepted; control: the equal configuration completes. non-trivial = both sides could be built and the run executed");
     let mut protos: Vec<(Proto, bool)> = vec![];
     for (k, p) in patterns::all_protos().into_iter().enumerate() {
         // all 13 344 names get the reduced alphabets in thorough; quick: the 25519/ChaChaPoly/SHA256 suite + every 12th name
@@ -221,6 +247,42 @@ pub fn run(tier: Tier) -> i32 {
             ctx.count(it.what, 1);
             if let Some((sig, d)) = judge(&it.cfg, &ops, it.what) {
                 ctx.violation(sig, d, json!({"kind": "c08", "config": it.cfg, "ops": ops, "what": it.what}));
+            }
+        }
+        // (vi) a psk replaced after building, through HandshakeState::set_psk, on one side or (differently) on both
+        for slot in &p.psks {
+            let loc = usize::from(*slot);
+            for (k, who) in [vec![(Side::I, 9u16)], vec![(Side::R, 130)], vec![(Side::I, 77), (Side::R, 201)]].into_iter().enumerate() {
+                let mut o: Vec<Op> = who.iter().map(|(s, bit)| Op::SetPskAlt { side: *s, loc, bit: *bit }).collect();
+                o.extend(ops.iter().cloned());
+                let _ = k;
+                ctx.add(&ctx.evaluations, 1);
+                ctx.add(&ctx.transitions, o.len() as u64);
+                ctx.add(&ctx.traces, 1);
+                ctx.add(&ctx.nontrivial, 1);
+                ctx.count("a pre-shared symmetric key replaced through set_psk", 1);
+                if let Some((sig, d)) = judge(&ctrl, &o, "a pre-shared symmetric key (replaced through set_psk after building)") {
+                    ctx.violation(sig, d, json!({"kind": "c08", "config": ctrl, "ops": o, "what": "a pre-shared symmetric key (replaced through set_psk after building)"}));
+                }
+            }
+        }
+        // (vii) the same differences in sessions whose every handshake step is first attempted wrongly and then
+        // repeated: every psk item, and the first item of every other class
+        let rops = with_retries(p, &ops);
+        let mut seen_class: Vec<&str> = vec![];
+        for it in &items {
+            if it.what != "a pre-shared symmetric key" {
+                if seen_class.contains(&it.what) {
+                    continue;
+                }
+                seen_class.push(it.what);
+            }
+            ctx.add(&ctx.evaluations, 1);
+            ctx.add(&ctx.transitions, rops.len() as u64);
+            ctx.add(&ctx.traces, 1);
+            ctx.count("retry variants", 1);
+            if let Some((sig, d)) = judge(&it.cfg, &rops, it.what) {
+                ctx.violation(sig, d, json!({"kind": "c08", "config": it.cfg, "ops": rops, "what": it.what}));
             }
         }
         if !quick && *deep {
